@@ -302,6 +302,11 @@ fn gen_value0(r: &mut Rng, vr: VR) -> PrimitiveValue {
             };
             PrimitiveValue::U8(r.bytes(k).into_iter().collect())
         }
+        VR::OW if r.chance(1, 3) => {
+            // 8-bit samples held as bytes under OW (legal: e.g. 8-bit Pixel Data in OW)
+            let k = r.usize(1, 12);
+            PrimitiveValue::U8(r.bytes(k).into_iter().collect())
+        }
         VR::OW | VR::US => PrimitiveValue::U16(many!(r.edgy(16) as u16).into_iter().collect()),
         VR::SS => PrimitiveValue::I16(many!(r.edgy(16) as u16 as i16).into_iter().collect()),
         VR::UL | VR::OL => PrimitiveValue::U32(many!(r.edgy(32) as u32).into_iter().collect()),
@@ -445,7 +450,10 @@ pub fn gen_dataset(r: &mut Rng, depth: u32, o: &GenOpts) -> Vec<Node> {
     } else if depth == 0 && r.chance(1, 10) {
         // native pixel data
         let tag = Tag(0x7FE0, 0x0010);
-        let (vr, val) = if r.chance(1, 2) {
+        let (vr, val) = if r.chance(1, 4) {
+            let k = r.usize(1, 9);
+            (VR::OW, PrimitiveValue::U8(r.bytes(k).into_iter().collect()))
+        } else if r.chance(1, 2) {
             (VR::OW, PrimitiveValue::U16((0..r.usize(1, 8)).map(|_| r.next_u32() as u16).collect()))
         } else {
             let k = r.usize(1, 9);
